@@ -150,8 +150,15 @@ def check_property(prop, tier, seed, only=None):  # pylint: disable=too-many-loc
               not (str(res.get('twin')).startswith('unknown') and res.get('diff_reached', 0) > 0)):
             # (a twin that cannot be rendered - e.g. a 5000-byte witness - is accepted when native runs of the same
             # harness demonstrably reach the assertion)
-            row['verdict'] = 'VACUOUS'
-            harness_errors.append((label, 'vacuity twin: %s' % res.get('twin')))
+            if _single_byte_harness(shard):
+                # no path of the engine reaches the assertion although the original byte is among the 256 values:
+                # the engine cannot run this parser (dateutil on symbolic text raises on every path).  Undecided;
+                # the native sweep below runs all 256 values.
+                row['verdict'] = 'INCONCLUSIVE'
+                row['note'] = 'vacuous under the engine (twin: %s)' % res.get('twin')
+            else:
+                row['verdict'] = 'VACUOUS'
+                harness_errors.append((label, 'vacuity twin: %s' % res.get('twin')))
         elif res['verdict'] == 'REFUTED':
             outcome = triage(prop, shard, res, known, row)
             if outcome[0] == 'violation':
